@@ -4,6 +4,7 @@ CONSTANTS
   MaxSends = 2
   MaxWakes = 1
   Horizon = 3
+  Repaired = TRUE
   WakeDelays = {0, 1}
   RestoreMode = "noguard"
 INVARIANTS BufferBounds TickDiscipline RestoredGuardSound NoLostAfterCut SeqFresh
